@@ -2057,11 +2057,20 @@ class MatrixBase:
 
     def __matmul__(self, other: 'MatrixBase | AngleBase') -> Self:
         if isinstance(other, MatrixBase):
-            mat = self.copy()
+            # Not copy(), that returns the same object for frozen matrices.
+            mat = self._from_raw(
+                self._aa, self._ab, self._ac,
+                self._ba, self._bb, self._bc,
+                self._ca, self._cb, self._cc,
+            )
             mat._mat_mul(other)
             return mat
         elif isinstance(other, AngleBase):
-            mat = self.copy()
+            mat = self._from_raw(
+                self._aa, self._ab, self._ac,
+                self._ba, self._bb, self._bc,
+                self._ca, self._cb, self._cc,
+            )
             mat._mat_mul(Py_Matrix.from_angle(other))
             return mat
         else:
@@ -2095,7 +2104,12 @@ class MatrixBase:
             cls = type(other)
             return mat._to_angle(cls.__new__(cls))
         elif isinstance(other, MatrixBase):
-            mat = other.copy()
+            # Not copy(), that returns the same object for frozen matrices.
+            mat = other._from_raw(
+                other._aa, other._ab, other._ac,
+                other._ba, other._bb, other._bc,
+                other._ca, other._cb, other._cc,
+            )
             mat._mat_mul(self)
             return mat
         else:
